@@ -418,7 +418,7 @@ fn t2_hb_single_single() {
     run2([B_SINGLE, B_SINGLE], [1, 1], 2, 2, true);
 }
 
-// @verif family=TBMC hook=1 ignorefn=TProbeA quick=C05,C04 thorough=C01,C09 timeout=2400 mem=40 optcov=both
+// @verif family=TBMC hook=1 ignorefn=TProbeA quick=C05,C04 thorough=C01 timeout=2400 mem=40 optcov=both
 // @bounds kind=ConIterOfIter<usize,TProbe*> len<=1; thread 0: 1 x next_id_and_value(), thread 1 (last; continues on its own after the trace): 2 x next_id_and_value() (pulls after the end was reported); <=7 guessed events per thread; all interleavings
 #[kani::proof]
 #[kani::unwind(12)]
@@ -426,7 +426,7 @@ fn t2_single_single2() {
     run2([B_SINGLE, B_SINGLE], [1, 2], 1, 2, false);
 }
 
-// @verif family=TBMC hook=1 ignorefn=TProbeA quick=C06 thorough=C01,C09 timeout=2400 mem=40 optcov=both|wait
+// @verif family=TBMC hook=1 ignorefn=TProbeA quick=C06 thorough=C09 timeout=2400 mem=40 optcov=both|wait
 // @bounds kind=ConIterOfIter<usize,TProbe*> len<=2; thread 0: skip_to_end then has_more/try_get_len, thread 1: 2 x next_id_and_value(); <=7 events per thread + solo continuation; all interleavings
 #[kani::proof]
 #[kani::unwind(12)]
@@ -442,7 +442,7 @@ fn t2_len_single() {
     run2([B_LEN, B_SINGLE], [2, 2], 2, 2, false);
 }
 
-// @verif family=TBMC hook=1 ignorefn=TProbeA quick=C03 thorough=C01,C02,C04,C09 timeout=2400 mem=40
+// @verif family=TBMC hook=1 ignorefn=TProbeA quick=C03 thorough=C02,C04 timeout=2400 mem=40
 // @bounds kind=ConIterOfIter<usize,TProbe*> len<=2; thread 0: buffered_iter(2).next(), thread 1: next_id_and_value(); <=7 events per thread + solo continuation; all interleavings
 #[kani::proof]
 #[kani::unwind(12)]
@@ -450,7 +450,7 @@ fn t2_buf_single() {
     run2([B_BUF, B_SINGLE], [1, 1], 2, 2, false);
 }
 
-// @verif family=TBMC hook=1 ignorefn=TProbeA quick=C09 thorough=C03,C01,C02,C04 timeout=2400 mem=40
+// @verif family=TBMC hook=1 ignorefn=TProbeA quick=C09 thorough=C03,C02 timeout=2400 mem=40
 // @bounds kind=ConIterOfIter<usize,TProbe*> len<=2; thread 0: next_id_and_value(), thread 1: buffered_iter(2).next() (the chunk pull is the last thread: hang detection applies to it); <=7 events per thread + solo; all interleavings
 #[kani::proof]
 #[kani::unwind(12)]
@@ -458,7 +458,7 @@ fn t2_single_buf() {
     run2([B_SINGLE, B_BUF], [1, 1], 2, 2, false);
 }
 
-// @verif family=TBMC hook=1 ignorefn=TProbeA thorough=C03,C01,C02,C04,C09 timeout=2400 mem=40
+// @verif family=TBMC hook=1 ignorefn=TProbeA thorough=C03,C01 timeout=2400 mem=40
 // @bounds kind=ConIterOfIter<usize,TProbe*> len<=2; thread 0: next_chunk(n<=2) (allocates), thread 1: next_id_and_value(); <=7 events per thread + solo; all interleavings
 #[kani::proof]
 #[kani::unwind(12)]
@@ -482,7 +482,7 @@ fn t2_hb_single_buf() {
     run2([B_SINGLE, B_BUF], [1, 1], 2, 2, true);
 }
 
-// @verif family=TBMC hook=1 ignorefn=TProbeA thorough=C07,C06,C01,C02 timeout=5400 mem=48 optcov=both weight=6
+// @verif family=TBMC hook=1 ignorefn=TProbeA thorough=C07 timeout=7200 mem=48 optcov=both weight=6
 // @bounds kind=ConIterOfIter<usize,TProbe*> len<=2; FOUR threads: next_id_and_value() | skip_to_end() | next_id_and_value() | next_id_and_value(); <=7 events per thread + solo continuation of the last; happens-before, exclusivity, exactly-once, index fidelity (the window between the two stores of skip_to_end)
 #[kani::proof]
 #[kani::unwind(12)]
@@ -490,7 +490,7 @@ fn t4_single_skip_single_single() {
     run_n([B_SINGLE, B_SKIP, B_SINGLE, B_SINGLE], [1, 1, 1, 1], 4, 2, 2, true);
 }
 
-// @verif family=TBMC hook=1 ignorefn=TProbeA thorough=C01,C04,C09 timeout=3600 mem=48 weight=6
+// @verif family=TBMC hook=1 ignorefn=TProbeA thorough=C01,C09 timeout=5400 mem=48 weight=6
 // @bounds kind=ConIterOfIter<usize,TProbe*> len<=2; THREE threads x 1 next_id_and_value(); <=7 events per thread + solo continuation of the last; all interleavings
 #[kani::proof]
 #[kani::unwind(12)]
@@ -498,7 +498,7 @@ fn t3_single_single_single() {
     run_n([B_SINGLE, B_SINGLE, B_SINGLE, 0], [1, 1, 1, 0], 3, 2, 2, false);
 }
 
-// @verif family=TBMC hook=1 ignorefn=TProbeA thorough=C06,C09 timeout=5400 mem=48 optcov=both|wait
+// @verif family=TBMC hook=1 ignorefn=TProbeA thorough=C06 timeout=5400 mem=48 optcov=both|wait
 // @bounds kind=ConIterOfIter<usize,TProbe*> len<=2; thread 0: next_id_and_value(), thread 1 (last): skip_to_end then has_more; <=7 guessed events per thread + solo; all interleavings
 #[kani::proof]
 #[kani::unwind(12)]
@@ -506,7 +506,7 @@ fn t2_single_skip() {
     run2([B_SINGLE, B_SKIP | B_LEN], [1, 2], 2, 2, false);
 }
 
-// @verif family=TBMC hook=1 ignorefn=TProbeA quick=C06 thorough=C11,C09 timeout=2400 mem=40 optcov=both|wait
+// @verif family=TBMC hook=1 ignorefn=TProbeA thorough=C06 timeout=7200 mem=40 optcov=both|wait
 // @bounds kind=ConIterOfIter<usize,TProbe*> len<=1; thread 0: next_chunk(n<=2) (a short or empty chunk, in flight while the other thread skips); thread 1 (last): skip_to_end then has_more; <=7 guessed events per thread + solo; all interleavings
 #[kani::proof]
 #[kani::unwind(12)]
